@@ -89,9 +89,12 @@ theorem filter_atom (env : PEnv) (a : CAtom) (hok : a.ok env.scheme = true)
 theorem filter_boolField (env : PEnv) {name : List Char} (hname : nameOk name = true)
     (hnot : name ≠ "not".toList) (hany : name ≠ "any".toList) (hall : name ≠ "all".toList)
     (hfield : fieldHasTy env.scheme name .bool = true) :
-    parseFilter env name = .ok (.comparison (.field (fieldIx env.scheme name) []) .isTrue) :=
-  filter_atom env (.boolField name) (CAtom.ok_boolField hname hnot hany hall hfield)
-    (trim_name hname)
+    parseFilter env name = .ok (.comparison (.field (fieldIx env.scheme name) []) .isTrue) := by
+  have e : (CAtom.boolField name).txt = name := by simp [CAtom.txt, pathTxt, Tail.txt]
+  have := filter_atom env (.boolField name) (CAtom.ok_boolField hname hnot hany hall hfield)
+    (by rw [e]; exact trim_name hname)
+  rw [e] at this
+  exact this
 
 /-! ### the argument lexer (`FunctionCallArgExpr::lex_with`) -/
 
